@@ -6,6 +6,7 @@ import numpy as np
 from runner import Case
 from shapes import shapes, prod, fmt, fmt_lists, all_idx, rand_shape
 from props import c04_bc
+from props import c04_gen
 
 ID = 'C04'
 LEVEL = 'proof'
@@ -30,7 +31,7 @@ ANCHORS = {
     'NmVerif.Index.splitViews': 'view::detail::split_args, view::split',
     'NmVerif.Index.shapeSlidingWindow / indexSlidingWindow / slidingWindowView': 'index::shape_sliding_window, index::sliding_window, view::sliding_window',
     'NmVerif.Index.shapeDiagonal / indexDiagonal / diagonalView, diagflatView, trilView, triuView, triGen, eyeGen, identityGen': 'index::shape_diagonal, index::diagonal, index::diagflat, index::tril, index::triu, index::tri, index::eye; view::diagonal, diagflat, tril, triu, tri, eye, identity',
-    'NmVerif.Index.whereView / bcastIdx': 'view::where (broadcast_arrays + select)',
+    'NmVerif.Index.whereView / WhereView.select (over NmVerif.broadcastArraysViews)': 'view::where (view::broadcast_arrays + where_t::operator())',
     'NmVerif.Index.compressView / nonzeroIdx': 'index::shape_compress, index::compress, view::compress',
     'NmVerif.Index.shapeResize / indexResize / resizeView': 'index::shape_resize, index::resize, view::resize',
     'NmVerif.Index.shapeExpand / indexExpand / expandView': 'index::shape_expand, index::expand, view::expand',
@@ -55,13 +56,13 @@ ASSUMPTIONS = [
     'resize: the float(...) round trip applied after the integer division in index::resize is exact below 2^24 (extents of the scope are far smaller)',
     'ndarray element access: data_.at(offset) with offset computed in size_t; an index outside the shape whose offset stays below the size is read silently (the harness prints what was read, `oob` when vector::at throws)',
     'split parts go through view::slice; the model uses stop-start extents with cut points clamped to the extent (C05 covers the slice arithmetic)',
-    'where: the broadcast rule is the simple right-aligned one (C06 proves the C++ broadcast_to equals it)',
+    'where: the broadcast of the three operands is C06\'s model of broadcast_arrays (index::broadcast_shape fold + view::broadcast_to per operand)',
 ]
 PARTIAL = [
     'diagonal2d_*_partial: diagonal proved for rank 2, axes (0,1), every offset (negative, empty result); full statement (any rank, any accepted axis pair) kept in Props/C04.lean, under correspondence for every rank',
     'slidingWindow_*: proved for a scalar window on one axis; window lists, axis lists and axis None under correspondence only',
     'split_*: proved for N equal sections; cut-point lists under correspondence only',
-    'where, arange, linspace, full/zeros/ones(_like): no theorem (where: plumbing over broadcast, C06/C07; generators: IMPL vs NumPy only)',
+    'arange, linspace, full/zeros/ones(_like): no theorem (generators: IMPL vs NumPy only)',
     'per-element repeats with axis None: does not instantiate in nmtools (shape_repeat multiplies the product by the repeats list); not runnable, not claimed',
 ]
 KNOWN_PREDICATES = {}
@@ -313,3 +314,4 @@ def gen(tier, rng):
             # the Lean model answers these too
             c.model = True
         yield c
+    yield from c04_gen.gen_more(tier, rng)
